@@ -23,7 +23,8 @@
 -/
 import SoyVerif.Lemmas.JsParseExpr
 import SoyVerif.Lemmas.JsParseLex
-import SoyVerif.Props.C04c
+import SoyVerif.Lemmas.JsParseStmt
+import SoyVerif.Props.C04d
 
 namespace SoyVerif.Props.C14c
 open SoyVerif SoyVerif.Spec SoyVerif.Spec.JsParse
@@ -713,5 +714,852 @@ theorem jsparse_render_expr (e : JsExpr) (h : Img e) : jsParseExpr (printPieces 
   simp only [pre, Option.map_some, List.append_nil]
   rw [parseExpr_tk _ (plain_wf e h)]
   exact read_plain e h
+
+/-! # statements -/
+
+open SoyVerif.Model (Directive Expr)
+open SoyVerif.Model.JsGen (directiveJsName spaces)
+open SoyVerif.Spec.JsStmt (JsStmt JsStmts JsConds JsCases DataBase JsFunc)
+open SoyVerif.Props.C04d (litAst renderStmt renderStmts renderConds renderCases openPieces closePieces argPieces basePieces
+  kvPieces dataPieces)
+open SoyVerif.Lemmas.JsParseStmt
+
+/-! ## the syntax tree of a statement -/
+
+/-- the pieces of a dotted name -/
+def qSplit : Bytes → List Bytes
+  | [] => [[]]
+  | c :: r =>
+    if c == 46 then [] :: qSplit r
+    else match qSplit r with
+      | s :: ss => (c :: s) :: ss
+      | [] => [[c]]
+
+/-- `a.b.c` as a chain of `.name` -/
+def plainQ (q : Bytes) : PE :=
+  match qSplit q with
+  | g :: segs => segs.foldl PE.member (.ident g)
+  | [] => .ident []
+
+def plainArgs : List PE → PArgs
+  | [] => .nil
+  | a :: r => .cons a (plainArgs r)
+
+def sTruncate : Bytes := b!"truncate"
+
+/-- the literal arguments the generator writes behind the value: those of the source, and `true` for a `|truncate:n` -/
+def dirArgs (d : Directive) : List PE :=
+  (d.args.filterMap litAst).map plain ++ (if d.name == sTruncate && d.args.length == 1 then [.bool true] else [])
+
+/-- `dN(…d1(e, a…)…, a…)` -/
+def plainPrint (e : PE) (ds : List Directive) : PE :=
+  ds.foldl (fun acc d => .call (plainQ (directiveJsName d.name)) (.cons acc (plainArgs (dirArgs d)))) e
+
+def plainBase : DataBase → PE
+  | .empty => .obj .nil
+  | .all => .ident sOptData
+  | .expr e => plain e
+
+def plainProps : List (Bytes × JsExpr) → PProps
+  | [] => .nil
+  | (k, v) :: r => .cons k (plain v) (plainProps r)
+
+def plainData (base : DataBase) (params : List (Bytes × JsExpr)) : PE :=
+  match params with
+  | [] => plainBase base
+  | ps => .call (plainQ sAugment) (.cons (plainBase base) (.cons (.obj (plainProps ps)) .nil))
+
+def PStmts.snoc : PStmts → PS → PStmts
+  | .nil, s => .cons s .nil
+  | .cons a r, s => .cons a (PStmts.snoc r s)
+
+/-- `case l1: case l2: … body` -/
+def plainLabels : List PE → PStmts → PClauses → PClauses
+  | [], _, rest => rest
+  | [l], body, rest => .case l body rest
+  | l :: ls, body, rest => .case l .nil (plainLabels ls body rest)
+
+mutual
+  def plainS : JsStmt → PS
+    | .appendLit b t => .expr (.assign .add (.ident b) (.str t))
+    | .append b e ds => .expr (.assign .add (.ident b) (plainPrint (plain e) ds))
+    | .var x e => .var [(x, plain e)]
+    | .varEmpty x => .var [(x, .str [])]
+    | .ifs conds => plainConds conds
+    | .varLength x l => .var [(x, .member (.ident l) sLength)]
+    | .varIndex x l i => .var [(x, .index (.ident l) (.ident i))]
+    | .forUp i lim body =>
+      .forVar [(i, .num 0)] (.bin .lt (.ident i) (.ident lim)) [.postInc (.ident i)] (.block (plainSs body))
+    | .ifPos lim body els => .ifElse (.bin .gt (.ident lim) (.num 0)) (.block (plainSs body)) (.block (plainSs els))
+    | .forStep i lim step idx init body =>
+      .forVar [(i, plain init), (idx, .num 0)] (.bin .lt (.ident i) (.ident lim))
+        [.assign .add (.ident i) (.ident step), .postInc (.ident idx)] (.block (plainSs body))
+    | .switchS e cases => .switchS (plain e) (plainCases cases)
+    | .call b callee base params =>
+      .expr (.assign .add (.ident b) (.call (plainQ callee)
+        (.cons (plainData base params) (.cons (.ident b!"opt_sb") (.cons (.ident b!"opt_ijData") .nil)))))
+  def plainSs : JsStmts → PStmts
+    | .nil => .nil
+    | .cons s r => .cons (plainS s) (plainSs r)
+  /-- `if (c) {…} else if (c) {…} … else {…}` -/
+  def plainConds : JsConds → PS
+    | .nil => .block .nil
+    | .els body => .block (plainSs body)
+    | .cons c body rest =>
+      match rest with
+      | .nil => .ifS (plain c) (.block (plainSs body))
+      | .els e => .ifElse (plain c) (.block (plainSs body)) (.block (plainSs e))
+      | .cons c' body' rest' => .ifElse (plain c) (.block (plainSs body)) (plainConds (.cons c' body' rest'))
+  def plainCases : JsCases → PClauses
+    | .nil => .nil
+    | .dflt body => .dflt (PStmts.snoc (plainSs body) .brk) .nil
+    | .cons labels body rest => plainLabels (labels.map plain) (PStmts.snoc (plainSs body) .brk) (plainCases rest)
+end
+
+/-! ## the image -/
+
+/-- a dotted name `a.b.c` of ASCII IdentifierNames, the first no reserved word -/
+def QName (q : Bytes) : Prop :=
+  ∃ g segs, qSplit q = g :: segs ∧ JsIdent g ∧ isReserved g = false ∧ ∀ s ∈ segs, JsIdent s
+
+/-- a directive the generator has a JavaScript function for; its literal arguments are in the image -/
+def DirOk (d : Directive) : Prop :=
+  (∃ jd ∈ Gen.jsDirectives, jd.name = d.name ∧ jd.jsName ≠ []) ∧ ∀ a ∈ d.args, ∀ j, litAst a = some j → Img j
+
+def ImgBase : DataBase → Prop
+  | .empty => True
+  | .all => True
+  | .expr e => Img e
+
+def ImgParams : List (Bytes × JsExpr) → Prop
+  | [] => True
+  | (k, v) :: r => JsIdent k ∧ Img v ∧ ImgParams r
+
+def ImgList : List JsExpr → Prop
+  | [] => True
+  | e :: r => Img e ∧ ImgList r
+
+mutual
+  /-- the statements whose text (the concrete syntax of Spec/JsStmt) the grammar reads back: names are JavaScript
+      variable names, expressions are in `Img`, the library calls around a printed value are directives the generator
+      knows, an `if` chain has a first condition, a `case` clause has a label -/
+  def ImgS : JsStmt → Prop
+    | .appendLit b t => JsName b ∧ ValidUtf8 t
+    | .append b e ds => JsName b ∧ Img e ∧ ∀ d ∈ ds, DirOk d
+    | .var x e => JsName x ∧ Img e
+    | .varEmpty x => JsName x
+    | .ifs conds => (match conds with | .cons _ _ _ => True | _ => False) ∧ ImgConds conds
+    | .varLength x l => JsName x ∧ JsName l
+    | .varIndex x l i => JsName x ∧ JsName l ∧ JsName i
+    | .forUp i lim body => JsName i ∧ JsName lim ∧ ImgSs body
+    | .ifPos lim body els => JsName lim ∧ ImgSs body ∧ ImgSs els
+    | .forStep i lim step idx init body => JsName i ∧ JsName lim ∧ JsName step ∧ JsName idx ∧ Img init ∧ ImgSs body
+    | .switchS e cases => Img e ∧ ImgCases cases
+    | .call b callee base params => JsName b ∧ QName callee ∧ ImgBase base ∧ ImgParams params
+  def ImgSs : JsStmts → Prop
+    | .nil => True
+    | .cons s r => ImgS s ∧ ImgSs r
+  def ImgConds : JsConds → Prop
+    | .nil => True
+    | .els body => ImgSs body
+    | .cons c body rest => Img c ∧ ImgSs body ∧ ImgConds rest
+  def ImgCases : JsCases → Prop
+    | .nil => True
+    | .dflt body => ImgSs body
+    | .cons labels body rest => labels ≠ [] ∧ ImgList labels ∧ ImgSs body ∧ ImgCases rest
+end
+
+/-! ## 3'. the tokens of the text of a statement -/
+
+theorem lex_spaces : ∀ (n : Nat) (r : Bytes), jsLex (spaces n ++ r) = jsLex r
+  | 0, r => rfl
+  | n + 1, r => by simp only [spaces, List.cons_append, lex_sp]; exact lex_spaces n r
+
+/-- followed by anything that does not go on with an identifier character or a `.`, the text has the tokens -/
+def LxN (bs : Bytes) (ts : List Tok) : Prop := ∀ rest, SepN rest → jsLex (bs ++ rest) = pre ts (jsLex rest)
+
+theorem LxN.render {e : JsExpr} (h : Img e) : LxN (printPieces (render e)) (tk (plain e)) :=
+  fun rest hs => lex_render e h rest hs.sep1 (fun _ => hs)
+
+theorem qSplit_ne : ∀ q : Bytes, ∃ g segs, qSplit q = g :: segs
+  | [] => ⟨_, _, rfl⟩
+  | c :: r => by
+    obtain ⟨g, segs, e⟩ := qSplit_ne r
+    simp only [qSplit, e]
+    split <;> exact ⟨_, _, rfl⟩
+
+theorem qSplit_join : ∀ (q g : Bytes) (segs : List Bytes), qSplit q = g :: segs → q = g ++ segs.flatMap (46 :: ·)
+  | [], g, segs, h => by simp only [qSplit, List.cons.injEq] at h; obtain ⟨rfl, rfl⟩ := h; rfl
+  | c :: r, g, segs, h => by
+    obtain ⟨g', segs', e⟩ := qSplit_ne r
+    have ih := qSplit_join r g' segs' e
+    simp only [qSplit, e] at h
+    split at h
+    · rename_i hc
+      simp only [beq_iff_eq] at hc
+      simp only [List.cons.injEq] at h
+      obtain ⟨rfl, rfl⟩ := h
+      rw [ih, hc]
+      simp
+    · simp only [List.cons.injEq] at h
+      obtain ⟨rfl, rfl⟩ := h
+      rw [ih]
+      simp
+
+theorem tk_foldl_member : ∀ (segs : List Bytes) (acc : PE),
+    tk (segs.foldl PE.member acc) = tk acc ++ segs.flatMap (fun s => [.p b!".", .id s])
+  | [], acc => by simp
+  | s :: r, acc => by simp [tk_foldl_member r, tk]
+
+theorem lex_segs : ∀ (segs : List Bytes) (rest : Bytes), (∀ s ∈ segs, JsIdent s) → Sep1 rest →
+    jsLex (segs.flatMap (46 :: ·) ++ rest) = pre (segs.flatMap (fun s => [.p b!".", .id s])) (jsLex rest)
+  | [], rest, _, _ => by simp
+  | s :: r, rest, hs, hr => by
+    have ih := lex_segs r rest (fun x hx => hs x (List.mem_cons_of_mem _ hx)) hr
+    have hsep : Sep1 (r.flatMap (46 :: ·) ++ rest) := by
+      cases r with
+      | nil => simpa using hr
+      | cons s' r' => exact sep1_cons rfl _
+    simp only [List.flatMap_cons, List.cons_append, List.append_assoc]
+    rw [lex_dot_ident (hs s (List.mem_cons_self ..)) hsep, ih, pre_pre]
+    simp
+
+theorem lex_qname {q : Bytes} (hq : QName q) {rest : Bytes} (hr : Sep1 rest) :
+    jsLex (q ++ rest) = pre (tk (plainQ q)) (jsLex rest) := by
+  obtain ⟨g, segs, e, hg, _, hs⟩ := hq
+  have hj := qSplit_join q g segs e
+  have hsep : Sep1 (segs.flatMap (46 :: ·) ++ rest) := by
+    cases segs with
+    | nil => simpa using hr
+    | cons s' r' => exact sep1_cons rfl _
+  unfold plainQ
+  rw [e]
+  simp only [tk_foldl_member, tk]
+  conv => lhs; rw [hj]
+  rw [List.append_assoc, lex_ident hg hsep, lex_segs segs rest hs hr, pre_pre]
+
+theorem printPieces_flatMap {α : Type} (f : α → List Piece) : ∀ l : List α,
+    printPieces (l.flatMap f) = l.flatMap (fun x => printPieces (f x))
+  | [] => rfl
+  | x :: r => by simp [printPieces_append, printPieces_flatMap f r]
+
+/-! ### the library calls around a printed value -/
+
+def identB (g : Bytes) : Bool :=
+  match g with
+  | [] => false
+  | c :: r => isIdStart c && r.all isIdPart
+
+theorem identB_ok {g : Bytes} (h : identB g = true) : JsIdent g := by
+  cases g with
+  | nil => simp [identB] at h
+  | cons c r =>
+    simp only [identB, Bool.and_eq_true, List.all_eq_true] at h
+    exact ⟨c, r, rfl, h.1, h.2⟩
+
+def qOkB (q : Bytes) : Bool :=
+  match qSplit q with
+  | g :: segs => identB g && !isReserved g && segs.all identB
+  | [] => false
+
+theorem qOkB_ok {q : Bytes} (h : qOkB q = true) : QName q := by
+  unfold qOkB at h
+  split at h
+  · rename_i g segs e
+    simp only [Bool.and_eq_true, Bool.not_eq_true', List.all_eq_true] at h
+    exact ⟨g, segs, e, identB_ok h.1.1, h.1.2, fun s hs => identB_ok (h.2 s hs)⟩
+  · cases h
+
+/-- the table of the directives: the JavaScript name is a dotted name, and names the directive -/
+theorem dir_table : ∀ jd ∈ Gen.jsDirectives, jd.jsName ≠ [] →
+    directiveJsName jd.name = jd.jsName ∧ qOkB jd.jsName = true ∧ dirOfJs jd.jsName = some jd.name := by
+  decide
+
+theorem dirOk_js {d : Directive} (h : DirOk d) :
+    QName (directiveJsName d.name) ∧ dirOfJs (directiveJsName d.name) = some d.name := by
+  obtain ⟨⟨jd, hjd, hn, hne⟩, _⟩ := h
+  obtain ⟨h1, h2, h3⟩ := dir_table jd hjd hne
+  rw [← hn, h1]
+  exact ⟨qOkB_ok h2, h3⟩
+
+theorem tkArgsTail_plainArgs : ∀ xs : List PE,
+    tkArgsTail (plainArgs xs) = xs.flatMap (fun x => Tok.p b!"," :: tk x) ++ [.p b!")"]
+  | [] => rfl
+  | x :: r => by simp [plainArgs, tkArgsTail, tkArgsTail_plainArgs r]
+
+/-- `,a,b` -/
+theorem lex_argPieces : ∀ (args : List Expr) (rest : Bytes), (∀ a ∈ args, ∀ j, litAst a = some j → Img j) → SepN rest →
+    jsLex (printPieces (args.flatMap argPieces) ++ rest) =
+      pre (((args.filterMap litAst).map plain).flatMap (fun x => Tok.p b!"," :: tk x)) (jsLex rest)
+  | [], rest, _, _ => by simp [printPieces_nil]
+  | a :: r, rest, h, hr => by
+    have ih := lex_argPieces r rest (fun x hx => h x (List.mem_cons_of_mem _ hx)) hr
+    simp only [List.flatMap_cons, printPieces_append, List.append_assoc, List.filterMap_cons]
+    cases hl : litAst a with
+    | none => simp only [argPieces, hl, printPieces_nil, List.nil_append]; exact ih
+    | some j =>
+      have hj := h a (List.mem_cons_self ..) j hl
+      have hsep : SepN (printPieces (r.flatMap argPieces) ++ rest) := by
+        -- the next piece starts with `,`, or the rest follows
+        clear ih
+        induction r with
+        | nil => simpa [printPieces_nil] using hr
+        | cons a' r' ih' =>
+          simp only [List.flatMap_cons, printPieces_append, List.append_assoc]
+          cases hl' : litAst a' with
+          | none =>
+            simp only [argPieces, hl', printPieces_nil, List.nil_append]
+            exact ih' (fun x hx => h x (by
+              rcases List.mem_cons.mp hx with rfl | hx
+              · exact List.mem_cons_self ..
+              · exact List.mem_cons_of_mem _ (List.mem_cons_of_mem _ hx)))
+          | some j' =>
+            simp only [argPieces, hl', printPieces_append, printPieces_cons, printPieces_nil, Piece.print, List.append_assoc,
+              List.cons_append, List.nil_append]
+            exact sepN_cons rfl (by decide) _
+      simp only [argPieces, hl, printPieces_append, printPieces_cons, printPieces_nil, Piece.print, List.append_assoc,
+        List.cons_append, List.nil_append, List.append_nil]
+      rw [lex_comma, LxN.render hj _ hsep, ih, pre_pre, pre_pre]
+      simp
+
+theorem print_open (d : Directive) : printPieces (openPieces d) = directiveJsName d.name ++ [40] := by
+  simp [openPieces, printPieces_cons, printPieces_nil, Piece.print]
+
+/-- `,a,b)` -/
+theorem lex_close (d : Directive) (h : DirOk d) (rest : Bytes) :
+    jsLex (printPieces (closePieces d) ++ rest) = pre (tkArgsTail (plainArgs (dirArgs d))) (jsLex rest) := by
+  unfold closePieces dirArgs
+  simp only [printPieces_append, List.append_assoc, tkArgsTail_plainArgs, List.flatMap_append]
+  by_cases ht : (d.name == b!"truncate" && d.args.length == 1) = true
+  · have ht' : (d.name == sTruncate && d.args.length == 1) = true := ht
+    simp only [ht, ht', if_true, printPieces_cons, printPieces_nil, Piece.print, List.append_assoc, List.cons_append,
+      List.nil_append, List.append_nil]
+    rw [lex_argPieces d.args _ h.2 (sepN_cons rfl (by decide) _), lex_comma]
+    rwc lex_ident (g := b!"true") ⟨_, _, rfl, rfl, by decide⟩ (rest := 41 :: rest) (sep1_cons rfl _)
+    rw [lex_rparen]
+    simp [pre_pre, tk]
+  · have ht' : ¬ (d.name == sTruncate && d.args.length == 1) = true := ht
+    simp only [ht, ht', if_false, printPieces_cons, printPieces_nil, Piece.print, List.append_assoc, List.cons_append,
+      List.nil_append, List.append_nil, Bool.false_eq_true]
+    rw [lex_argPieces d.args _ h.2 (sepN_cons rfl (by decide) _), lex_rparen, pre_pre]
+    simp
+
+theorem sepN_args : ∀ (args : List Expr) (tail : Bytes), SepN tail → SepN (printPieces (args.flatMap argPieces) ++ tail)
+  | [], tail, ht => by simpa [printPieces_nil] using ht
+  | a :: r, tail, ht => by
+    simp only [List.flatMap_cons, printPieces_append, List.append_assoc]
+    cases hl : litAst a with
+    | none => simp only [argPieces, hl, printPieces_nil, List.nil_append]; exact sepN_args r tail ht
+    | some j =>
+      simp only [argPieces, hl, printPieces_append, printPieces_cons, printPieces_nil, Piece.print, List.append_assoc,
+        List.cons_append, List.nil_append]
+      exact sepN_cons rfl (by decide) _
+
+theorem close_sepN (d : Directive) (rest : Bytes) : SepN (printPieces (closePieces d) ++ rest) := by
+  unfold closePieces
+  simp only [printPieces_append, List.append_assoc]
+  apply sepN_args
+  split <;> simp only [printPieces_cons, printPieces_nil, Piece.print, List.cons_append, List.nil_append] <;>
+    exact sepN_cons rfl (by decide) _
+
+/-- `dN(…d1(inner, a…)…, a…)` -/
+theorem lex_nest : ∀ (ds : List Directive) (inner : Bytes) (P : PE), (∀ d ∈ ds, DirOk d) → LxN inner (tk P) →
+    LxN (printPieces (ds.reverse.flatMap openPieces) ++ (inner ++ printPieces (ds.flatMap closePieces))) (tk (plainPrint P ds))
+  | [], inner, P, _, hi => by
+    intro rest hr
+    simpa [printPieces_nil, plainPrint] using hi rest hr
+  | d :: ds, inner, P, hd, hi => by
+    have hd0 := hd d (List.mem_cons_self ..)
+    obtain ⟨hq, _⟩ := dirOk_js hd0
+    have step : LxN (printPieces (openPieces d) ++ (inner ++ printPieces (closePieces d)))
+        (tk (.call (plainQ (directiveJsName d.name)) (.cons P (plainArgs (dirArgs d))))) := by
+      intro rest hr
+      rw [print_open]
+      simp only [List.append_assoc, List.cons_append, List.nil_append]
+      rw [lex_qname hq (sep1_cons rfl _), lex_lparen, hi _ (close_sepN d rest), lex_close d hd0]
+      simp [pre_pre, tk, tkArgs]
+    have ih := lex_nest ds _ _ (fun x hx => hd x (List.mem_cons_of_mem _ hx)) step
+    intro rest hr
+    have := ih rest hr
+    simp only [List.reverse_cons, List.flatMap_append, List.flatMap_cons, List.flatMap_nil, List.append_nil,
+      printPieces_append, List.append_assoc] at this ⊢
+    simpa [plainPrint] using this
+
+/-! ### the data argument of a call -/
+
+theorem lex_base (b : DataBase) (h : ImgBase b) : LxN (printPieces (basePieces b)) (tk (plainBase b)) := by
+  intro rest hr
+  cases b with
+  | empty =>
+    simp only [basePieces, printPieces_cons, printPieces_nil, Piece.print, List.append_nil, List.cons_append, List.nil_append]
+    rw [lex_lbrace, lex_rbrace]
+    simp [pre_pre, plainBase, tk, tkProps]
+  | all =>
+    simp only [basePieces, printPieces_cons, printPieces_nil, Piece.print, List.append_nil]
+    exact lex_ident (g := sOptData) ⟨_, _, rfl, rfl, by decide⟩ hr.sep1
+  | expr e => exact LxN.render h rest hr
+
+theorem kv_sepN : ∀ (ps : List (Bytes × JsExpr)) (rest : Bytes), SepN (printPieces (kvPieces ps false) ++ 125 :: rest)
+  | [], rest => by simpa [kvPieces, printPieces_nil] using sepN_cons rfl (by decide) _
+  | (k, v) :: r, rest => by
+    simp only [kvPieces, printPieces_append, printPieces_cons, printPieces_nil, Piece.print, List.append_assoc,
+      List.cons_append, List.nil_append, Bool.false_eq_true, if_false]
+    exact sepN_cons rfl (by decide) _
+
+/-- `k: v, k: v}` -/
+theorem lex_kv : ∀ (ps : List (Bytes × JsExpr)) (first : Bool) (rest : Bytes), ImgParams ps →
+    jsLex (printPieces (kvPieces ps first) ++ 125 :: rest) =
+      pre (if first then tkProps (plainProps ps) else tkPropsTail (plainProps ps)) (jsLex rest)
+  | [], first, rest, _ => by
+    simp only [kvPieces, printPieces_nil, List.nil_append, lex_rbrace]
+    cases first <;> rfl
+  | (k, v) :: r, first, rest, h => by
+    simp only [ImgParams] at h
+    have ih := lex_kv r false rest h.2.2
+    cases first
+    · simp only [kvPieces, printPieces_append, printPieces_cons, printPieces_nil, Piece.print, List.append_assoc,
+        List.cons_append, List.nil_append, Bool.false_eq_true, if_false, List.append_nil]
+      rw [lex_comma, lex_sp, lex_ident h.1 (sep1_cons rfl _), lex_colon, lex_sp, LxN.render h.2.1 _ (kv_sepN r rest), ih]
+      simp [pre_pre, plainProps, tkPropsTail]
+    · simp only [kvPieces, printPieces_append, printPieces_cons, printPieces_nil, Piece.print, List.append_assoc,
+        List.cons_append, List.nil_append, if_true, List.append_nil]
+      rw [lex_ident h.1 (sep1_cons rfl _), lex_colon, lex_sp, LxN.render h.2.1 _ (kv_sepN r rest), ih]
+      simp [pre_pre, plainProps, tkProps]
+
+theorem qname_augment : QName sAugment := qOkB_ok (by decide)
+
+theorem lex_augment {rest : Bytes} (hr : Sep1 rest) :
+    jsLex (115 :: 111 :: 121 :: 46 :: 36 :: 36 :: 97 :: 117 :: 103 :: 109 :: 101 :: 110 :: 116 :: 77 :: 97 :: 112 :: rest) = pre (tk (plainQ sAugment)) (jsLex rest) :=
+  lex_qname qname_augment hr
+
+theorem lex_data (b : DataBase) (ps : List (Bytes × JsExpr)) (hb : ImgBase b) (hp : ImgParams ps) :
+    LxN (printPieces (dataPieces b ps)) (tk (plainData b ps)) := by
+  cases ps with
+  | nil => exact lex_base b hb
+  | cons p r =>
+    intro rest _
+    simp only [dataPieces, plainData, printPieces_append, printPieces_cons, printPieces_nil, Piece.print, List.append_assoc,
+      List.cons_append, List.nil_append, List.append_nil]
+    rw [lex_augment (sep1_cons rfl _), lex_lparen, lex_base b hb _ (sepN_cons rfl (by decide) _), lex_comma, lex_sp, lex_lbrace, lex_kv (p :: r) true _ hp,
+      lex_rparen]
+    simp [pre_pre, tk, tkArgs, tkArgsTail]
+
+/-! ### keywords -/
+
+theorem lexk_var (rest : Bytes) : jsLex (118 :: 97 :: 114 :: 32 :: rest) = pre [.id b!"var"] (jsLex rest) := by
+  have := lex_ident (g := b!"var") ⟨_, _, rfl, rfl, by decide⟩ (rest := 32 :: rest) (sep1_cons rfl _)
+  rw [lex_sp] at this; exact this
+theorem lexk_if (rest : Bytes) : jsLex (105 :: 102 :: 32 :: rest) = pre [.id b!"if"] (jsLex rest) := by
+  have := lex_ident (g := b!"if") ⟨_, _, rfl, rfl, by decide⟩ (rest := 32 :: rest) (sep1_cons rfl _)
+  rw [lex_sp] at this; exact this
+theorem lexk_for (rest : Bytes) : jsLex (102 :: 111 :: 114 :: 32 :: rest) = pre [.id b!"for"] (jsLex rest) := by
+  have := lex_ident (g := b!"for") ⟨_, _, rfl, rfl, by decide⟩ (rest := 32 :: rest) (sep1_cons rfl _)
+  rw [lex_sp] at this; exact this
+theorem lexk_switch (rest : Bytes) : jsLex (115 :: 119 :: 105 :: 116 :: 99 :: 104 :: 32 :: rest) = pre [.id b!"switch"] (jsLex rest) := by
+  have := lex_ident (g := b!"switch") ⟨_, _, rfl, rfl, by decide⟩ (rest := 32 :: rest) (sep1_cons rfl _)
+  rw [lex_sp] at this; exact this
+theorem lexk_case (rest : Bytes) : jsLex (99 :: 97 :: 115 :: 101 :: 32 :: rest) = pre [.id b!"case"] (jsLex rest) := by
+  have := lex_ident (g := b!"case") ⟨_, _, rfl, rfl, by decide⟩ (rest := 32 :: rest) (sep1_cons rfl _)
+  rw [lex_sp] at this; exact this
+theorem lexk_else (rest : Bytes) : jsLex (101 :: 108 :: 115 :: 101 :: 32 :: rest) = pre [.id b!"else"] (jsLex rest) := by
+  have := lex_ident (g := b!"else") ⟨_, _, rfl, rfl, by decide⟩ (rest := 32 :: rest) (sep1_cons rfl _)
+  rw [lex_sp] at this; exact this
+theorem lexk_return (rest : Bytes) : jsLex (114 :: 101 :: 116 :: 117 :: 114 :: 110 :: 32 :: rest) = pre [.id b!"return"] (jsLex rest) := by
+  have := lex_ident (g := b!"return") ⟨_, _, rfl, rfl, by decide⟩ (rest := 32 :: rest) (sep1_cons rfl _)
+  rw [lex_sp] at this; exact this
+theorem lexk_default (rest : Bytes) : jsLex (100 :: 101 :: 102 :: 97 :: 117 :: 108 :: 116 :: 58 :: rest) = pre [.id b!"default", .p b!":"] (jsLex rest) := by
+  have := lex_ident (g := b!"default") ⟨_, _, rfl, rfl, by decide⟩ (rest := 58 :: rest) (sep1_cons rfl _)
+  rw [lex_colon, pre_pre] at this; exact this
+theorem lexk_break (rest : Bytes) : jsLex (98 :: 114 :: 101 :: 97 :: 107 :: 59 :: rest) = pre [.id b!"break", .p b!";"] (jsLex rest) := by
+  have := lex_ident (g := b!"break") ⟨_, _, rfl, rfl, by decide⟩ (rest := 59 :: rest) (sep1_cons rfl _)
+  rw [lex_semi, pre_pre] at this; exact this
+theorem lexk_optsb (rest : Bytes) : jsLex (111 :: 112 :: 116 :: 95 :: 115 :: 98 :: 44 :: 32 :: 111 :: 112 :: 116 :: 95 :: 105 :: 106 :: 68 :: 97 :: 116 :: 97 :: 41 :: 59 :: rest) =
+    pre [.id b!"opt_sb", .p b!",", .id b!"opt_ijData", .p b!")", .p b!";"] (jsLex rest) := by
+  have h1 := lex_ident (g := b!"opt_sb") ⟨_, _, rfl, rfl, by decide⟩ (rest := 44 :: 32 :: 111 :: 112 :: 116 :: 95 :: 105 :: 106 :: 68 :: 97 :: 116 :: 97 :: 41 :: 59 :: rest) (sep1_cons rfl _)
+  have h2 := lex_ident (g := b!"opt_ijData") ⟨_, _, rfl, rfl, by decide⟩ (rest := 41 :: 59 :: rest) (sep1_cons rfl _)
+  rw [lex_comma, lex_sp] at h1
+  rw [lex_rparen, lex_semi] at h2
+  exact h1.trans (by rw [show (111 :: 112 :: 116 :: 95 :: 105 :: 106 :: 68 :: 97 :: 116 :: 97 :: 41 :: 59 :: rest) = b!"opt_ijData" ++ 41 :: 59 :: rest from rfl, h2]; simp [pre_pre])
+theorem lex_num0 {c : UInt8} (hc : isIdPart c = false) (hd : c ≠ 46) (rest : Bytes) :
+    jsLex (48 :: c :: rest) = pre [.num 0] (jsLex (c :: rest)) := by
+  have := lex_nat 0 (rest := c :: rest) (sepN_cons hc hd _)
+  exact this
+theorem lex_emptyStr (rest : Bytes) : jsLex (39 :: 39 :: rest) = pre [.str []] (jsLex rest) := by
+  have := lex_str (s := []) ValidUtf8.nil rest
+  exact this
+
+/-! ### statements -/
+
+theorem tkSs_snoc : ∀ (ss : PStmts) (s : PS), tkSs (PStmts.snoc ss s) = tkSs ss ++ tkS s
+  | .nil, s => by simp [PStmts.snoc, tkSs]
+  | .cons a r, s => by simp [PStmts.snoc, tkSs, tkSs_snoc r s]
+
+theorem tkCs_plainLabels : ∀ (ls : List PE) (body : PStmts) (rest : PClauses), ls ≠ [] →
+    tkCs (plainLabels ls body rest) = ls.flatMap (fun l => Tok.id b!"case" :: (tk l ++ [.p b!":"])) ++ (tkSs body ++ tkCs rest)
+  | [], _, _, h => absurd rfl h
+  | [l], body, rest, _ => by simp [plainLabels, tkCs]
+  | l :: l' :: ls, body, rest, _ => by
+    have := tkCs_plainLabels (l' :: ls) body rest (by simp)
+    simp only [plainLabels, tkCs, this, tkSs]
+    simp
+
+theorem lex_labels (f : JsExpr → List Piece) (ind : Nat)
+    (hf : ∀ j, printPieces (f j) = spaces ind ++ (99 :: 97 :: 115 :: 101 :: 32 :: (printPieces (render j) ++ [58, 10]))) :
+    ∀ (labels : List JsExpr) (rest : Bytes), ImgList labels →
+    jsLex (printPieces (labels.flatMap f) ++ rest) =
+      pre ((labels.map plain).flatMap (fun l => Tok.id b!"case" :: (tk l ++ [.p b!":"]))) (jsLex rest)
+  | [], rest, _ => by simp [printPieces_nil]
+  | l :: r, rest, h => by
+    simp only [ImgList] at h
+    have ih := lex_labels f ind hf r rest h.2
+    simp only [List.flatMap_cons, printPieces_append, hf, List.append_assoc, List.cons_append, List.nil_append, List.map_cons]
+    rw [lex_spaces, lexk_case, LxN.render h.1 _ (sepN_cons rfl (by decide) _), lex_colon, lex_nl, ih]
+    simp [pre_pre]
+
+theorem renderConds_false (ind : Nat) (conds : JsConds) (h : conds ≠ .nil) :
+    printPieces (renderConds false ind conds false) = b!" else " ++ printPieces (renderConds false ind conds true) := by
+  cases conds with
+  | nil => exact absurd rfl h
+  | els body => simp [renderConds, printPieces_append, printPieces_cons, printPieces_nil, Piece.print]
+  | cons c body rest => simp [renderConds, printPieces_append, printPieces_cons, printPieces_nil, Piece.print]
+
+theorem tkS_plainConds_cons (c : JsExpr) (body : JsStmts) (rest : JsConds) (h : rest ≠ .nil) :
+    tkS (plainConds (.cons c body rest)) =
+      .id b!"if" :: .p b!"(" :: (tk (plain c) ++ .p b!")" :: (tkS (.block (plainSs body)) ++ .id b!"else" :: tkS (plainConds rest))) := by
+  cases rest with
+  | nil => exact absurd rfl h
+  | els e => simp [plainConds, tkS]
+  | cons c' b' r' => simp [plainConds, tkS]
+
+macro "lexss" : tactic => `(tactic| simp only [renderStmt, renderStmts, renderCases, renderConds, printPieces_append,
+  printPieces_cons, printPieces_nil, Piece.print, List.append_assoc, List.cons_append, List.nil_append, List.append_nil,
+  Bool.false_eq_true, if_false, if_true])
+
+mutual
+  theorem lexS : ∀ (s : JsStmt) (ind : Nat), ImgS s → ∀ (rest : Bytes),
+      jsLex (printPieces (renderStmt false ind s) ++ rest) = pre (tkS (plainS s)) (jsLex rest)
+    | .appendLit b t, ind, h, rest => by
+      simp only [ImgS] at h
+      lexss
+      rw [lex_spaces, lex_ident h.1.1 (sep1_cons rfl _), lex_sp, lex_addset_sp, lex_str h.2, lex_semi, lex_nl]
+      simp [pre_pre, plainS, tkS, tk, AsgOp.tok]
+    | .append b e ds, ind, h, rest => by
+      simp only [ImgS] at h
+      have hn := lex_nest ds _ _ h.2.2 (LxN.render h.2.1) (59 :: 10 :: rest) (sepN_cons rfl (by decide) _)
+      simp only [List.append_assoc] at hn
+      lexss
+      rw [lex_spaces, lex_ident h.1.1 (sep1_cons rfl _), lex_sp, lex_addset_sp, hn, lex_semi, lex_nl]
+      simp [pre_pre, plainS, tkS, tk, AsgOp.tok]
+    | .var x e, ind, h, rest => by
+      simp only [ImgS] at h
+      lexss
+      rw [lex_spaces, lexk_var, lex_ident h.1.1 (sep1_cons rfl _), lex_sp, lex_set_sp,
+        LxN.render h.2 _ (sepN_cons rfl (by decide) _), lex_semi, lex_nl]
+      simp [pre_pre, plainS, tkS, tkDecls, tkDeclsTail]
+    | .varEmpty x, ind, h, rest => by
+      simp only [ImgS] at h
+      lexss
+      rw [lex_spaces, lexk_var, lex_ident h.1 (sep1_cons rfl _), lex_sp, lex_set_sp, lex_emptyStr, lex_semi, lex_nl]
+      simp [pre_pre, plainS, tkS, tkDecls, tkDeclsTail, tk]
+    | .ifs conds, ind, h, rest => by
+      simp only [ImgS] at h
+      have hne : conds ≠ .nil := by intro e; rw [e] at h; exact h.1
+      lexss
+      rw [lex_spaces, lexConds conds ind h.2 hne, lex_nl]
+      simp [plainS]
+    | .varLength x l, ind, h, rest => by
+      simp only [ImgS] at h
+      lexss
+      rw [lex_spaces, lexk_var, lex_ident h.1.1 (sep1_cons rfl _), lex_sp, lex_set_sp, lex_ident h.2.1 (sep1_cons rfl _)]
+      rwc lex_dot_ident (k := sLength) ⟨_, _, rfl, rfl, by decide⟩ (rest := 59 :: 10 :: rest) (sep1_cons rfl _)
+      rw [lex_semi, lex_nl]
+      simp [pre_pre, plainS, tkS, tkDecls, tkDeclsTail, tk, sLength]
+    | .varIndex x l i, ind, h, rest => by
+      simp only [ImgS] at h
+      lexss
+      rw [lex_spaces, lexk_var, lex_ident h.1.1 (sep1_cons rfl _), lex_sp, lex_set_sp, lex_ident h.2.1.1 (sep1_cons rfl _),
+        lex_lbrack, lex_ident h.2.2.1 (sep1_cons rfl _), lex_rbrack, lex_semi, lex_nl]
+      simp [pre_pre, plainS, tkS, tkDecls, tkDeclsTail, tk]
+    | .forUp i lim body, ind, h, rest => by
+      simp only [ImgS] at h
+      lexss
+      rw [lex_spaces, lexk_for, lex_lparen, lexk_var, lex_ident h.1.1 (sep1_cons rfl _), lex_sp, lex_set_sp,
+        lex_num0 rfl (by decide), lex_semi, lex_sp, lex_ident h.1.1 (sep1_cons rfl _), lex_sp, lex_lt_sp,
+        lex_ident h.2.1.1 (sep1_cons rfl _), lex_semi, lex_sp, lex_ident h.1.1 (sep1_cons rfl _), lex_inc_rparen, lex_sp,
+        lex_lbrace, lex_nl, lexSs body (ind + 1) h.2.2, lex_spaces, lex_rbrace, lex_nl]
+      simp [pre_pre, plainS, tkS, tkDecls, tkDeclsTail, tkExprs, tkExprsTail, tk, BinOp.sym]
+    | .ifPos lim body els, ind, h, rest => by
+      simp only [ImgS] at h
+      lexss
+      rw [lex_spaces, lexk_if, lex_lparen, lex_ident h.1.1 (sep1_cons rfl _), lex_sp, lex_gt_sp, lex_num0 rfl (by decide),
+        lex_rparen, lex_sp, lex_lbrace, lex_nl, lexSs body (ind + 1) h.2.1, lex_spaces, lex_rbrace, lex_sp, lexk_else, lex_lbrace,
+        lex_nl, lexSs els (ind + 1) h.2.2, lex_spaces, lex_rbrace, lex_nl]
+      simp [pre_pre, plainS, tkS, tk, BinOp.sym]
+    | .forStep i lim step idx init body, ind, h, rest => by
+      simp only [ImgS] at h
+      lexss
+      rw [lex_spaces, lexk_for, lex_lparen, lexk_var, lex_ident h.1.1 (sep1_cons rfl _), lex_sp, lex_set_sp,
+        LxN.render h.2.2.2.2.1 _ (sepN_cons rfl (by decide) _), lex_comma, lex_sp, lex_ident h.2.2.2.1.1 (sep1_cons rfl _),
+        lex_sp, lex_set_sp, lex_num0 rfl (by decide), lex_semi, lex_sp, lex_ident h.1.1 (sep1_cons rfl _), lex_sp, lex_lt_sp,
+        lex_ident h.2.1.1 (sep1_cons rfl _), lex_semi, lex_sp, lex_ident h.1.1 (sep1_cons rfl _), lex_sp, lex_addset_sp,
+        lex_ident h.2.2.1.1 (sep1_cons rfl _), lex_comma, lex_sp, lex_ident h.2.2.2.1.1 (sep1_cons rfl _), lex_inc_rparen,
+        lex_sp, lex_lbrace, lex_nl, lexSs body (ind + 1) h.2.2.2.2.2, lex_spaces, lex_rbrace, lex_nl]
+      simp [pre_pre, plainS, tkS, tkDecls, tkDeclsTail, tkExprs, tkExprsTail, tk, BinOp.sym, AsgOp.tok]
+    | .switchS e cases, ind, h, rest => by
+      simp only [ImgS] at h
+      lexss
+      rw [lex_spaces, lexk_switch, lex_lparen, LxN.render h.1 _ (sepN_cons rfl (by decide) _), lex_rparen, lex_sp, lex_lbrace,
+        lex_nl, lexCases cases (ind + 1) h.2, lex_spaces, lex_rbrace, lex_nl]
+      simp [pre_pre, plainS, tkS]
+    | .call b callee base params, ind, h, rest => by
+      simp only [ImgS] at h
+      lexss
+      rw [lex_spaces, lex_ident h.1.1 (sep1_cons rfl _), lex_sp, lex_addset_sp, lex_qname h.2.1 (sep1_cons rfl _), lex_lparen,
+        lex_data base params h.2.2.1 h.2.2.2 _ (sepN_cons rfl (by decide) _), lex_comma, lex_sp, lexk_optsb, lex_nl]
+      simp [pre_pre, plainS, tkS, tk, tkArgs, tkArgsTail, AsgOp.tok]
+  theorem lexSs : ∀ (ss : JsStmts) (ind : Nat), ImgSs ss → ∀ (rest : Bytes),
+      jsLex (printPieces (renderStmts false ind ss) ++ rest) = pre (tkSs (plainSs ss)) (jsLex rest)
+    | .nil, ind, _, rest => by simp [renderStmts, printPieces_nil, plainSs, tkSs]
+    | .cons s r, ind, h, rest => by
+      simp only [ImgSs] at h
+      lexss
+      rw [lexS s ind h.1, lexSs r ind h.2]
+      simp [pre_pre, plainSs, tkSs]
+  theorem lexConds : ∀ (conds : JsConds) (ind : Nat), ImgConds conds → conds ≠ .nil → ∀ (rest : Bytes),
+      jsLex (printPieces (renderConds false ind conds true) ++ rest) = pre (tkS (plainConds conds)) (jsLex rest)
+    | .nil, _, _, hne, _ => absurd rfl hne
+    | .els body, ind, h, _, rest => by
+      simp only [ImgConds] at h
+      lexss
+      rw [lex_lbrace, lex_nl, lexSs body (ind + 1) h, lex_spaces, lex_rbrace]
+      simp [pre_pre, plainConds, tkS]
+    | .cons c body rest', ind, h, _, rest => by
+      simp only [ImgConds] at h
+      by_cases hr : rest' = .nil
+      · subst hr
+        lexss
+        rw [lexk_if, lex_lparen, LxN.render h.1 _ (sepN_cons rfl (by decide) _), lex_rparen, lex_sp, lex_lbrace, lex_nl,
+          lexSs body (ind + 1) h.2.1, lex_spaces, lex_rbrace]
+        simp [pre_pre, plainConds, tkS]
+      · have ih := lexConds rest' ind h.2.2 hr rest
+        have hf := renderConds_false ind rest' hr
+        simp only [renderConds, printPieces_append, printPieces_cons, printPieces_nil, Piece.print, List.append_assoc,
+          List.cons_append, List.nil_append, List.append_nil, if_true, hf]
+        rw [lexk_if, lex_lparen, LxN.render h.1 _ (sepN_cons rfl (by decide) _), lex_rparen, lex_sp, lex_lbrace, lex_nl,
+          lexSs body (ind + 1) h.2.1, lex_spaces, lex_rbrace, lex_sp, lexk_else, ih, tkS_plainConds_cons c body rest' hr]
+        simp [pre_pre, tkS]
+  theorem lexCases : ∀ (cases : JsCases) (ind : Nat), ImgCases cases → ∀ (rest : Bytes),
+      jsLex (printPieces (renderCases false ind cases) ++ rest) = pre (tkCs (plainCases cases)) (jsLex rest)
+    | .nil, ind, _, rest => by simp [renderCases, printPieces_nil, plainCases, tkCs]
+    | .dflt body, ind, h, rest => by
+      simp only [ImgCases] at h
+      lexss
+      rw [lex_spaces, lexk_default, lex_nl, lexSs body (ind + 1) h, lex_spaces, lexk_break, lex_nl]
+      simp [pre_pre, plainCases, tkCs, tkSs_snoc, tkS]
+    | .cons labels body rest', ind, h, rest => by
+      simp only [ImgCases] at h
+      simp only [renderCases, printPieces_append, List.append_assoc]
+      rw [lex_labels _ ind (fun j => by simp [printPieces_append, printPieces_cons, printPieces_nil, Piece.print]) labels _ h.2.1,
+        lexSs body (ind + 1) h.2.2.1]
+      simp only [printPieces_cons, printPieces_nil, Piece.print, List.append_assoc, List.cons_append, List.nil_append,
+        List.append_nil]
+      rw [lex_spaces, lexk_break, lex_nl, lexCases rest' ind h.2.2.2]
+      simp [pre_pre, plainCases, tkCs_plainLabels _ _ _ (by simpa using h.1 : labels.map plain ≠ []), tkSs_snoc, tkS]
+end
+
+/-! ## 1'. the statement trees are well-formed -/
+
+theorem wf_foldl_member : ∀ (segs : List Bytes) (acc : PE), Wf acc → PE.lvl acc = 0 →
+    Wf (segs.foldl PE.member acc) ∧ PE.lvl (segs.foldl PE.member acc) = 0
+  | [], acc, w, l => ⟨w, l⟩
+  | s :: r, acc, w, l => wf_foldl_member r (.member acc s) (by simp only [Wf]; exact ⟨w, l⟩) rfl
+
+theorem wf_plainQ {q : Bytes} (h : QName q) : Wf (plainQ q) ∧ PE.lvl (plainQ q) = 0 := by
+  obtain ⟨g, segs, e, _, hr, _⟩ := h
+  unfold plainQ
+  rw [e]
+  exact wf_foldl_member segs (.ident g) (by simp only [Wf]; exact hr) rfl
+
+theorem wfArgs_plainArgs : ∀ xs : List PE, (∀ x ∈ xs, Wf x) → WfArgs (plainArgs xs)
+  | [], _ => trivial
+  | x :: r, h => by
+    simp only [plainArgs, WfArgs]
+    exact ⟨h x (List.mem_cons_self ..), wfArgs_plainArgs r (fun y hy => h y (List.mem_cons_of_mem _ hy))⟩
+
+theorem wf_dirArgs (d : Directive) (h : DirOk d) : ∀ x ∈ dirArgs d, Wf x := by
+  intro x hx
+  unfold dirArgs at hx
+  rcases List.mem_append.mp hx with hx | hx
+  · simp only [List.mem_map, List.mem_filterMap] at hx
+    obtain ⟨j, ⟨a, ha, hl⟩, rfl⟩ := hx
+    exact plain_wf j (h.2 a ha j hl)
+  · split at hx
+    · simp only [List.mem_singleton] at hx; subst hx; trivial
+    · cases hx
+
+theorem wf_plainPrint : ∀ (ds : List Directive) (P : PE), (∀ d ∈ ds, DirOk d) → Wf P → Wf (plainPrint P ds)
+  | [], P, _, w => w
+  | d :: ds, P, h, w => by
+    have hd := h d (List.mem_cons_self ..)
+    have hq := wf_plainQ (dirOk_js hd).1
+    simp only [plainPrint, List.foldl_cons]
+    apply wf_plainPrint ds _ (fun x hx => h x (List.mem_cons_of_mem _ hx))
+    simp only [Wf, WfArgs]
+    exact ⟨hq.1, hq.2, w, wfArgs_plainArgs _ (wf_dirArgs d hd)⟩
+
+theorem headTok_plainQ (q : Bytes) : ∃ g, headTok (plainQ q) = .id g := by
+  unfold plainQ
+  have : ∀ (segs : List Bytes) (acc : PE), headTok (segs.foldl PE.member acc) = headTok acc := by
+    intro segs
+    induction segs with
+    | nil => intro acc; rfl
+    | cons s r ih => intro acc; simp only [List.foldl_cons, ih]; rfl
+  split
+  · rename_i g segs _
+    exact ⟨g, by rw [this]; rfl⟩
+  · exact ⟨[], rfl⟩
+
+theorem wf_plainBase (b : DataBase) (h : ImgBase b) : Wf (plainBase b) := by
+  cases b with
+  | empty => simp [plainBase, Wf, WfProps]
+  | all => simp only [plainBase, Wf]; decide
+  | expr e => exact plain_wf e h
+
+theorem wf_plainProps : ∀ ps : List (Bytes × JsExpr), ImgParams ps → WfProps (plainProps ps)
+  | [], _ => trivial
+  | (k, v) :: r, h => by
+    simp only [ImgParams] at h
+    simp only [plainProps, WfProps]
+    exact ⟨plain_wf v h.2.1, wf_plainProps r h.2.2⟩
+
+theorem wf_plainData (b : DataBase) (ps : List (Bytes × JsExpr)) (hb : ImgBase b) (hp : ImgParams ps) :
+    Wf (plainData b ps) := by
+  cases ps with
+  | nil => exact wf_plainBase b hb
+  | cons p r =>
+    have hq := wf_plainQ qname_augment
+    simp only [plainData, Wf, WfArgs]
+    exact ⟨hq.1, hq.2, wf_plainBase b hb, wf_plainProps _ hp, trivial⟩
+
+theorem wfSs_snoc : ∀ (ss : PStmts) (s : PS), WfSs ss → WfS s → WfSs (PStmts.snoc ss s)
+  | .nil, s, _, w => by simp only [PStmts.snoc, WfSs]; exact ⟨w, trivial⟩
+  | .cons a r, s, h, w => by
+    simp only [WfSs] at h
+    simp only [PStmts.snoc, WfSs]
+    exact ⟨h.1, wfSs_snoc r s h.2 w⟩
+
+theorem wfCs_plainLabels : ∀ (ls : List PE) (body : PStmts) (rest : PClauses), (∀ l ∈ ls, Wf l) → WfSs body → WfCs rest →
+    WfCs (plainLabels ls body rest)
+  | [], _, _, _, _, wr => wr
+  | [l], body, rest, hl, wb, wr => by
+    simp only [plainLabels, WfCs]
+    exact ⟨hl l (List.mem_cons_self ..), wb, wr⟩
+  | l :: l' :: ls, body, rest, hl, wb, wr => by
+    simp only [plainLabels, WfCs]
+    exact ⟨hl l (List.mem_cons_self ..), trivial,
+      wfCs_plainLabels (l' :: ls) body rest (fun x hx => hl x (List.mem_cons_of_mem _ hx)) wb wr⟩
+
+theorem imgList_wf : ∀ (ls : List JsExpr), ImgList ls → ∀ l ∈ ls.map plain, Wf l
+  | [], _, l, hl => by cases hl
+  | e :: r, h, l, hl => by
+    simp only [ImgList] at h
+    simp only [List.map_cons, List.mem_cons] at hl
+    rcases hl with rfl | hl
+    · exact plain_wf e h.1
+    · exact imgList_wf r h.2 l hl
+
+theorem wf_ident {g : Bytes} (h : JsName g) : Wf (.ident g) := by simp only [Wf]; exact h.2.1
+
+mutual
+  theorem wfS_plain : ∀ (s : JsStmt), ImgS s → WfS (plainS s)
+    | .appendLit b t, h => by
+      simp only [ImgS] at h
+      simp only [plainS, WfS, Wf, isRef, headTok]
+      exact ⟨⟨h.1.2.1, trivial, trivial⟩, by simp⟩
+    | .append b e ds, h => by
+      simp only [ImgS] at h
+      simp only [plainS, WfS, Wf, isRef, headTok]
+      exact ⟨⟨h.1.2.1, trivial, wf_plainPrint ds _ h.2.2 (plain_wf e h.2.1)⟩, by simp⟩
+    | .var x e, h => by
+      simp only [ImgS] at h
+      simp only [plainS, WfS, WfDecls]
+      exact ⟨by simp, h.1.2.1, plain_wf e h.2, trivial⟩
+    | .varEmpty x, h => by
+      simp only [ImgS] at h
+      simp only [plainS, WfS, WfDecls, Wf]
+      exact ⟨by simp, h.2.1, trivial, trivial⟩
+    | .ifs conds, h => by
+      simp only [ImgS] at h
+      simp only [plainS]
+      exact wfConds_plain conds h.2
+    | .varLength x l, h => by
+      simp only [ImgS] at h
+      simp only [plainS, WfS, WfDecls, Wf, PE.lvl]
+      exact ⟨by simp, h.1.2.1, ⟨h.2.2.1, trivial⟩, trivial⟩
+    | .varIndex x l i, h => by
+      simp only [ImgS] at h
+      simp only [plainS, WfS, WfDecls, Wf, PE.lvl]
+      exact ⟨by simp, h.1.2.1, ⟨h.2.1.2.1, trivial, h.2.2.2.1⟩, trivial⟩
+    | .forUp i lim body, h => by
+      simp only [ImgS] at h
+      simp only [plainS, WfS, WfDecls, WfExprs, Wf, PE.lvl, BinOp.lvl]
+      exact ⟨by simp, ⟨h.1.2.1, trivial, trivial⟩, ⟨h.1.2.1, h.2.1.2.1, by omega, by omega⟩, by simp, ⟨⟨h.1.2.1, trivial⟩, trivial⟩,
+        wfSs_plain body h.2.2⟩
+    | .ifPos lim body els, h => by
+      simp only [ImgS] at h
+      simp only [plainS, WfS, Wf, PE.lvl, BinOp.lvl, closed]
+      exact ⟨⟨h.1.2.1, trivial, by omega, by omega⟩, wfSs_plain body h.2.1, trivial, wfSs_plain els h.2.2⟩
+    | .forStep i lim step idx init body, h => by
+      simp only [ImgS] at h
+      simp only [plainS, WfS, WfDecls, WfExprs, Wf, PE.lvl, BinOp.lvl, isRef]
+      exact ⟨by simp, ⟨h.1.2.1, plain_wf init h.2.2.2.2.1, h.2.2.2.1.2.1, trivial, trivial⟩,
+        ⟨h.1.2.1, h.2.1.2.1, by omega, by omega⟩, by simp,
+        ⟨⟨h.1.2.1, trivial, h.2.2.1.2.1⟩, ⟨h.2.2.2.1.2.1, trivial⟩, trivial⟩, wfSs_plain body h.2.2.2.2.2⟩
+    | .switchS e cases, h => by
+      simp only [ImgS] at h
+      simp only [plainS, WfS]
+      exact ⟨plain_wf e h.1, wfCases_plain cases h.2⟩
+    | .call b callee base params, h => by
+      simp only [ImgS] at h
+      have hq := wf_plainQ h.2.1
+      simp only [plainS, WfS, Wf, WfArgs, isRef, headTok]
+      refine ⟨⟨h.1.2.1, trivial, hq.1, hq.2, wf_plainData base params h.2.2.1 h.2.2.2, by decide, by decide, trivial⟩, by simp⟩
+  theorem wfSs_plain : ∀ (ss : JsStmts), ImgSs ss → WfSs (plainSs ss)
+    | .nil, _ => trivial
+    | .cons s r, h => by
+      simp only [ImgSs] at h
+      simp only [plainSs, WfSs]
+      exact ⟨wfS_plain s h.1, wfSs_plain r h.2⟩
+  theorem wfConds_plain : ∀ (conds : JsConds), ImgConds conds → WfS (plainConds conds)
+    | .nil, _ => by simp [plainConds, WfS, WfSs]
+    | .els body, h => by
+      simp only [ImgConds] at h
+      simp only [plainConds, WfS]
+      exact wfSs_plain body h
+    | .cons c body .nil, h => by
+      simp only [ImgConds] at h
+      simp only [plainConds, WfS]
+      exact ⟨plain_wf c h.1, wfSs_plain body h.2.1⟩
+    | .cons c body (.els e), h => by
+      simp only [ImgConds] at h
+      simp only [plainConds, WfS, closed]
+      exact ⟨plain_wf c h.1, wfSs_plain body h.2.1, trivial, wfSs_plain e h.2.2⟩
+    | .cons c body (.cons c' body' rest'), h => by
+      simp only [ImgConds] at h
+      have := wfConds_plain (.cons c' body' rest') (by simp only [ImgConds]; exact h.2.2)
+      simp only [plainConds, WfS, closed] at this ⊢
+      exact ⟨plain_wf c h.1, wfSs_plain body h.2.1, trivial, this⟩
+  theorem wfCases_plain : ∀ (cases : JsCases), ImgCases cases → WfCs (plainCases cases)
+    | .nil, _ => trivial
+    | .dflt body, h => by
+      simp only [ImgCases] at h
+      simp only [plainCases, WfCs]
+      exact ⟨wfSs_snoc _ _ (wfSs_plain body h) trivial, trivial⟩
+    | .cons labels body rest, h => by
+      simp only [ImgCases] at h
+      simp only [plainCases]
+      exact wfCs_plainLabels _ _ _ (imgList_wf labels h.2.1) (wfSs_snoc _ _ (wfSs_plain body h.2.2.1) trivial)
+        (wfCases_plain rest h.2.2.2)
+end
 
 end SoyVerif.Props.C14c
